@@ -175,6 +175,10 @@ def main(run):
 
     def sort_case(w, vals, ks=None, log=True, count=True):
         """run both procedures for the given k's and both flags; oracle + one correspondence term."""
+        if len(run.oracle_viol) >= 40:
+            # enough concrete failing inputs for a replay; do not burn the budget on more of them
+            run.extra_cov["cases_skipped_after_40_violations"] = run.extra_cov.get("cases_skipped_after_40_violations", 0) + 1
+            return
         n = len(vals)
         pop = mkpop(w, vals)
         idmap = {id(x): i for i, x in enumerate(pop)}
@@ -196,7 +200,8 @@ def main(run):
                     exp = [[]]      # outside the quantifier (population of 1..N); the code returns one empty front
                 st, r1 = budgeted(tools.sortNondominated, pop, k, ffo)
                 if st != "ok":
-                    run.oracle_violation("sortNondominated does not return fronts (%s)" % (st if st == "timeout" else r1), case)
+                    if n >= 1:      # the empty population is outside the quantifier: never reported as a failing input
+                        run.oracle_violation("sortNondominated does not return fronts (%s)" % (st if st == "timeout" else r1), case)
                     failed = True
                     continue
                 c1 = canon(r1, idmap, case, "sortNondominated")
@@ -283,6 +288,8 @@ def main(run):
 
     def trace_run(w, vals):
         """run sortLogNondominated with logging wrappers around the helpers; emit helper cases."""
+        if len(run.oracle_viol) >= 40:
+            return
         orig = {n_: getattr(emo, n_) for n_ in ("sortNDHelperA", "sortNDHelperB", "sweepA", "sweepB", "splitA", "splitB",
                                                 "median", "isDominated")}
         log = []
